@@ -332,7 +332,12 @@ def run(chk: Check):
         prop = P(n_walkers=4)
         hd = ham.build_measurement_intermediates(hd, trial, wd)
         for restricted_prop in ((True,) if I["kind"] == "rhf" else (False,)):
-            pd = prop.init_prop_data(trial, wd, hd, None)
+            try:
+                pd = prop.init_prop_data(trial, wd, hd, None)
+            except Exception as ex_:       # the library failing on its own initial walkers is an outcome, not a harness problem
+                chk.violation(f"init:init_prop_data-raises:{I['kind']}", f"init_prop_data with the trial's own initial walkers raised "
+                              f"{type(ex_).__name__}: {str(ex_)[:200]} (norb={I['norb']}, nelec=({I['nu']},{I['nd']}))", {"instance": I["json"]})
+                continue
             e = float(np.asarray(pd["e_estimate"]))
             chk.case((I["id"], "variational"))
             chk.traces += 1
